@@ -305,8 +305,11 @@ def gen_skoolmem(rng, tier, index):
             ops.append(['bank', rng.randrange(8)])
         elif r < 0.28:
             ops.append(['bankdata', rng.randrange(8), rng.randrange(256)])
-        elif r < 0.4:
+        elif r < 0.34:
             ops.append(['out7ffd', rng.choice((rng.randrange(8), 0x10 | rng.randrange(8), rng.randrange(256)))])
+        elif r < 0.44:
+            # a #SIM-style session on the skool memory: tracer and lock state are built from memory.o7ffd
+            ops.append(['simout', rng.choice((rng.randrange(8), 0x10 | rng.randrange(8), 0x20 | rng.randrange(32), rng.randrange(256))), rng.choice(('py', 'c'))])
         elif r < 0.55:
             ops.append(['copy'])
         elif r < 0.8:
@@ -328,6 +331,7 @@ def _run_skoolmem(scn, res, wd):
     for k in (5, 2, 0):
         banks[k] = bytearray(0x4000)
     page = 0
+    o7 = 0
     is128 = False
     def to128():
         nonlocal is128
@@ -354,6 +358,25 @@ def _run_skoolmem(scn, res, wd):
             m.bank(op[1])
             to128()
             page = op[1]
+            o7 = (o7 & 0xF8) | op[1]          # #BANK changes the paged bank only; ROM, screen and lock bits stay
+        elif op[0] == 'simout':
+            if not is128:
+                continue
+            cls = _cls['py' if op[2] == 'py' else 'c']
+            if op[2] == 'c':
+                continue          # the C engines need memory.convert(); the skool-file memory is driven by Python here
+            tr = skoolmacro.PagingTracer(m, m.o7ffd, 0, [0] * 16)
+            sim = simutils.from_memory(cls, m, {'SP': 0xBF00}, {'iff': 0})
+            sim.set_tracer(tr)
+            code = [0x01, 0xFD, 0x7F, 0x3E, op[1], 0xED, 0x79]
+            for i_, b_ in enumerate(code):
+                m[0x8000 + i_] = b_
+                banks[2][i_] = b_
+            sim.run(0x8000, 0x8000 + len(code))
+            if not o7 & 0x20:
+                o7 = op[1]
+                page = op[1] & 7
+            bump(res, 'sim_sessions')
         elif op[0] == 'bankdata':
             if not is128:
                 continue
@@ -365,6 +388,7 @@ def _run_skoolmem(scn, res, wd):
                 continue
             m.out7ffd(op[1])
             page = op[1] & 7
+            o7 = op[1]
         elif op[0] == 'copy':
             m = m.copy()
         elif op[0] == 'set':
@@ -392,6 +416,8 @@ def _run_skoolmem(scn, res, wd):
                 return fail(res, 'C08/skoolmem/bank-content', 'step %d (%s): bank %d offset %d holds %d, model %d (paged bank %d)' % (step, what, k, j, m.banks[k][j], banks[k][j], page))
         if is128 and m.o7ffd % 8 != page:
             return fail(res, 'C08/skoolmem/o7ffd', 'step %d (%s): o7ffd=%d but bank %d is paged in' % (step, what, m.o7ffd, page))
+        if is128 and m.o7ffd != o7:
+            return fail(res, 'C08/skoolmem/latch', 'step %d (%s): o7ffd=%d, model latch %d (lock/ROM/screen bits must survive #BANK; a locked latch must refuse writes)' % (step, what, m.o7ffd, o7))
     res['sigs'].append('skoolmem|%d|%s' % (min(len(scn['ops']), 8), scn['start128']))
     res['digest'] = hashlib.sha256(json.dumps(scn['ops']).encode()).hexdigest()
     return res
